@@ -264,37 +264,36 @@ def searchDown (d : Design) (insts bound : List Nat) : Nat → HRef → Inst →
          else if c.id ∈ insts then [c.id :: p] else [])
      | none => [])
 
-/-- the netlist is found through the first instance: `reference.library.netlist`, or — repaired
-    code — through `parent.library.netlist` when the instance has no reference -/
-def netlistOk (d : Design) (insts : List Nat) : Bool :=
-  match insts with
-  | [] => false
-  | x :: _ =>
-    match d.instById x with
-    | some i =>
-      match i.ref with
-      | some r =>
-        match d.defs[r]? with
+/-- an instance leads to the netlist when its reference, or else the definition that contains it, sits
+    in a library of the netlist (`definition.library.netlist`) -/
+def leadsToNetlist (d : Design) (x : Nat) : Bool :=
+  match d.instById x with
+  | some i =>
+    (match i.ref with
+     | some r =>
+       (match d.defs[r]? with
         | some D => D.inNl
-        | none => false
-      | none =>
-        match d.parentOf x with
-        | some k =>
-          match d.defs[k]? with
-          | some D => D.inNl
-          | none => false
-        | none => false
-    | none => false
+        | none => false)
+     | none => false) ||
+    (match d.parentOf x with
+     | some k =>
+       (match d.defs[k]? with
+        | some D => D.inNl
+        | none => false)
+     | none => false)
+  | none => false
+
+/-- repaired code: the netlist is looked for through the given instances *and their ancestors* (the
+    bound set), so an element with a valid occurrence always finds it (the top instance is among them) -/
+def netlistOk (d : Design) (insts bound : List Nat) : Bool := (insts ++ bound).any (leadsToNetlist d)
 
 def allHrefs (d : Design) (insts : List Nat) : List HRef × Bool :=
-  if netlistOk d insts then
-    match d.top with
-    | some t =>
-      let init := insts.flatMap (upSucc d)
-      let b := Reach.go (upSucc d) (upFuel d init) init []
-      (searchDown d insts b.1 (d.defs.length + 1) [t.id] t, b.2)
-    | none => ([], true)
-  else ([], true)
+  match d.top with
+  | some t =>
+    let init := insts.flatMap (upSucc d)
+    let b := Reach.go (upSucc d) (upFuel d init) init []
+    if netlistOk d insts b.1 then (searchDown d insts b.1 (d.defs.length + 1) [t.id] t, b.2) else ([], b.2)
+  | none => ([], true)
 
 /-! ## Depth-first enumeration below a hierarchical instance -/
 
